@@ -171,8 +171,22 @@ example (s : DState) (hs : s = { fs := { nodes := [([97], .file [] 0o644), ([98]
   ⟨guessFilepath_reverse_made _ _ (Or.inl rfl) (by subst hs; decide),
    guessFilepath_forward_old _ _ (by decide +kernel) (by subst hs; decide)⟩
 
+/-- **a file which is to be removed but is not there (any more) is still the file the patch is about** (NEW with the model change
+    D88: the last fallback of `guess_filepath` no longer asks for `-R`): for a deletion, when none of the names of the header exists,
+    the file to patch is the old name — with or without `-R` (and `processSection` then reads the missing file as empty) -/
+theorem guessFilepath_delete_missing (p : Patch) (r : Bool) (s : DState) (hop : p.operation = .delete)
+    (hold : (s.fs.stat (absPath s p.oldPath)).isSome = false)
+    (hnew : (s.fs.stat (absPath s p.newPath)).isSome = false)
+    (hidx : (s.fs.stat (absPath s p.indexPath)).isSome = false) :
+    (guessFilepath p r).run s = (.ok p.oldPath, s) := by
+  unfold guessFilepath
+  simp only [DriverFacts.run_bind, DriverFacts.run_fsExists, DriverFacts.run_ite, DriverFacts.run_pure, hold, hnew, hidx, hop,
+    Bool.and_false, Bool.false_eq_true, ↓reduceIte, beq_self_eq_true]
+  rfl
+
 end PatchModel.C01
 
+#print axioms PatchModel.C01.guessFilepath_delete_missing
 #print axioms PatchModel.C01.C01_section
 #print axioms PatchModel.C01.C01_section_flat
 #print axioms PatchModel.C01.C01_section_needs_parent
